@@ -170,7 +170,7 @@ Values(d, a) ==
       [] a \in FlagAttrs -> Flag
       [] a = "pattern"   -> {"lower", "digit"}
       [] a \in ListAttrs -> EnumSubsets
-      [] a = "desc"      -> {"one", "multi"}
+      [] a = "desc"      -> {"one", "multi", "para"}      \* para: two paragraphs separated by an empty "|" line
       [] a = "single"    -> {"thing"}
       [] a = "sident"    -> {"ident"}
       [] a = "ent"       -> {"primary", "notprimary", "foreign"}
